@@ -19,6 +19,8 @@ import (
 	"verifsim/models/keyoracle"
 )
 
+func mod64(v int64, n int) int64 { return int64(mod(v, n)) }
+
 func mod(v int64, n int) int {
 	if n <= 0 {
 		return 0
@@ -35,8 +37,12 @@ type txResult struct {
 	committed bool
 	err       error  // error returned by walletdb.Update (nil if committed)
 	opErr     error  // error returned by the manager call itself
-	kind      string // "" | closure-error | commit-failure | write-failure | op-error
+	kind      string // "" | closure-error | commit-failure | write-failure | op-error | enum-aborted
 	panicked  any
+	// fault enumeration (C10)
+	aborted        bool // a known finding was looked beyond; the operation counts as not executed
+	ranOK          bool // some rolled-back attempt ran the call to a successful end
+	failedAttempts int
 }
 
 var errPanicked = fmt.Errorf("addrsim: the call under test panicked")
@@ -64,6 +70,9 @@ func acctKind(a *acctM) string {
 // 0 none, 1 f succeeds and then the closure returns an error (dry-run
 // pattern), 2 injected commit failure, 3 k-th mutating call fails.
 func (r *run) tx(mode, k int64, f func(ns walletdb.ReadWriteBucket) error) txResult {
+	if r.c10 != nil && r.c10.enum {
+		return r.c10.enumerate(enumTarget{db: r.db, mgr: func() *waddrmgr.Manager { return r.mgr }}, f)
+	}
 	r.db.Reset()
 	switch mode {
 	case 2:
@@ -132,6 +141,9 @@ func (r *run) after(res txResult) {
 	if r.c8 != nil {
 		r.c8.afterTx(res)
 	}
+	if r.c10 != nil && r.c10.enum && !res.aborted {
+		r.c10.afterEnumerated()
+	}
 }
 
 // modeArg tells which integer argument of an operation kind is its fault
@@ -143,6 +155,10 @@ var modeArg = map[string]int{"next": 4, "extend": 4, "markused": 1, "chpass": 2,
 func (r *run) execOp(op core.Op) {
 	env := r.env
 	env.Count("op." + op.K)
+	if r.c10 != nil {
+		r.c10.enum = op.Str(0) == "enum"
+		r.c10.kind, r.c10.extra, r.c10.failedAttempts = op.K, nil, 0
+	}
 	if r.c8 != nil {
 		if i, ok := modeArg[op.K]; ok && op.Arg(i) != 0 {
 			r.c8.beforeFault()
@@ -206,6 +222,8 @@ func (r *run) execOp(op core.Op) {
 		r.opNewScope(op)
 	case "convert":
 		r.opConvert(op)
+	case "birthday":
+		r.opBirthday(op)
 	case "clock":
 		d := op.Arg(0)
 		if d < 1 {
@@ -225,6 +243,27 @@ func (r *run) execOp(op core.Op) {
 	if r.c5 != nil {
 		r.c5.afterOp()
 	}
+}
+
+// modelProp: the properties whose verdict includes "the result is what the
+// committed model predicts" (C10: the fault-free retry gives the same result
+// as a run without the fault).
+func (r *run) modelProp() bool { return r.prop == "C03" || r.prop == "C08" || r.prop == "C10" }
+
+// privPassAsBefore (C10, after a failed private passphrase change): the
+// current private passphrase still unlocks, in the lock state the manager is
+// in, and the state is left as it was.
+func (r *run) privPassAsBefore() (string, string) {
+	was := r.locked
+	err, _ := r.unlockWith(append([]byte(nil), r.m.Priv...))
+	if err != nil || r.mgr.IsLocked() {
+		r.locked = r.mgr.IsLocked()
+		return "unlock", fmt.Sprintf("Unlock with the (unchanged) current private passphrase now returns %v (was locked: %v)", err, was)
+	}
+	if was {
+		_ = r.mgr.Lock()
+	}
+	return "", ""
 }
 
 func (r *run) pickAcct(a0, a1 int64) (int, *scopeM, *acctM) {
@@ -270,12 +309,15 @@ func (r *run) opNext(op core.Op) {
 	res := r.tx(mode, k, func(ns walletdb.ReadWriteBucket) error {
 		var err error
 		if branch == 0 {
-			got, err = sm.NextExternalAddresses(ns, a.Num, n)
+			got, err = r.scoped(si).NextExternalAddresses(ns, a.Num, n)
 		} else {
-			got, err = sm.NextInternalAddresses(ns, a.Num, n)
+			got, err = r.scoped(si).NextInternalAddresses(ns, a.Num, n)
 		}
 		return err
 	})
+	if res.aborted || (r.stop && r.c10 != nil) {
+		return
+	}
 	r.env.Eff()
 	r.env.Logf("%d next s%d a%d %s n=%d mode=%d -> %s %s", r.opIdx, si, a.Num, brName(branch), n, mode, errName(res.err), res.kind)
 	if r.crashed(res, acctKind(a)+":state="+r.stateName()) {
@@ -388,10 +430,13 @@ func (r *run) opExtend(op core.Op) {
 	}
 	res := r.tx(mode, k, func(ns walletdb.ReadWriteBucket) error {
 		if branch == 0 {
-			return sm.ExtendExternalAddresses(ns, a.Num, last)
+			return r.scoped(si).ExtendExternalAddresses(ns, a.Num, last)
 		}
-		return sm.ExtendInternalAddresses(ns, a.Num, last)
+		return r.scoped(si).ExtendInternalAddresses(ns, a.Num, last)
 	})
+	if res.aborted || (r.stop && r.c10 != nil) {
+		return
+	}
 	r.env.Eff()
 	r.env.Logf("%d extend s%d a%d %s to=%d mode=%d -> %s %s", r.opIdx, si, a.Num, brName(branch), last, mode, errName(res.err), res.kind)
 	if r.crashed(res, acctKind(a)+":state="+r.stateName()) {
@@ -479,7 +524,7 @@ func (r *run) opDerive(op core.Op) {
 	var ma waddrmgr.ManagedAddress
 	err := r.view(func(ns walletdb.ReadBucket) error {
 		var e error
-		ma, e = sm.DeriveFromKeyPath(ns, kp)
+		ma, e = r.scoped(si).DeriveFromKeyPath(ns, kp)
 		return e
 	})
 	r.env.Eff()
@@ -519,7 +564,7 @@ func (r *run) opDeriveCache(op core.Op) {
 	var pan any
 	func() {
 		defer func() { pan = recover() }()
-		priv, err = sm.DeriveFromKeyPathCache(kp)
+		priv, err = r.scoped(si).DeriveFromKeyPathCache(kp)
 	}()
 	r.env.Eff()
 	if pan != nil {
@@ -594,7 +639,7 @@ func (r *run) opLookupMiss(op core.Op) {
 		r.fail("lookup-miss-found", "Address(%s) of a never derived address (index %d) was found", addr, index)
 		return
 	}
-	if !isCode(err, waddrmgr.ErrAddressNotFound) && (r.prop == "C03" || r.prop == "C08") {
+	if !isCode(err, waddrmgr.ErrAddressNotFound) && r.modelProp() {
 		r.fail("lookup-miss-error:"+errName(err), "Address(%s) of a never derived address failed with %v instead of address-not-found", addr, err)
 	}
 }
@@ -616,6 +661,9 @@ func (r *run) opMarkUsed(op core.Op) {
 	res := r.tx(mode, kk, func(ns walletdb.ReadWriteBucket) error {
 		return r.mgr.MarkUsed(ns, addr)
 	})
+	if res.aborted || (r.stop && r.c10 != nil) {
+		return
+	}
 	r.env.Eff()
 	r.env.Logf("%d markused #%d mode=%d -> %s %s", r.opIdx, k, mode, errName(res.err), res.kind)
 	if res.opErr != nil && res.kind == "op-error" {
@@ -736,7 +784,11 @@ func (r *run) opUnlock(op core.Op) {
 	if right {
 		if err != nil {
 			if r.c5 != nil {
-				r.fail("unlock-failed:right-passphrase:"+errName(err)+r.c5.unlockContext(),
+				wasCtx := ""
+				if !was {
+					wasCtx = ":was=unlocked"
+				}
+				r.fail("unlock-failed:right-passphrase:"+errName(err)+wasCtx+r.c5.unlockContext(),
 					"Unlock with the current private passphrase failed (was %s): %v", r.stateName(), err)
 				if r.stop {
 					return
@@ -747,6 +799,9 @@ func (r *run) opUnlock(op core.Op) {
 			return
 		}
 		r.locked = false
+		if !was {
+			r.env.Count("probe.unlock-right-while-unlocked")
+		}
 		if r.c5 != nil && r.mgr.IsLocked() {
 			r.fail("unlock-still-locked", "IsLocked() is true after a successful Unlock")
 			return
@@ -837,9 +892,19 @@ func (r *run) opChpass(op core.Op) {
 	if r.c4 != nil {
 		r.c4.addPassphrase(newPass, private)
 	}
+	if r.c10 != nil {
+		r.c10.kind = "chpass-public"
+		if private {
+			r.c10.kind = "chpass-private"
+			r.c10.extra = r.privPassAsBefore
+		}
+	}
 	res := r.tx(mode, k, func(ns walletdb.ReadWriteBucket) error {
 		return r.mgr.ChangePassphrase(ns, old, append([]byte(nil), newPass...), private, &waddrmgr.FastScryptOptions)
 	})
+	if res.aborted || (r.stop && r.c10 != nil) {
+		return
+	}
 	r.env.Eff()
 	r.env.Logf("%d chpass private=%v wrongold=%v state=%s -> %s %s", r.opIdx, private, wrongOld, r.stateName(), errName(res.err), res.kind)
 	if wrongOld {
@@ -876,7 +941,7 @@ func (r *run) opChpass(op core.Op) {
 		return
 	}
 	if r.c5 != nil {
-		r.c5.afterChpass(private)
+		r.c5.afterChpass(private, mod64(op.Arg(4), 3))
 	}
 }
 
@@ -901,9 +966,12 @@ func (r *run) opNewAccount(op core.Op) {
 	var num uint32
 	res := r.tx(mode, k, func(ns walletdb.ReadWriteBucket) error {
 		var err error
-		num, err = sm.NewAccount(ns, name)
+		num, err = r.scoped(si).NewAccount(ns, name)
 		return err
 	})
+	if res.aborted || (r.stop && r.c10 != nil) {
+		return
+	}
 	r.env.Eff()
 	r.env.Logf("%d newaccount s%d state=%s mode=%d -> %s %s", r.opIdx, si, r.stateName(), mode, errName(res.err), res.kind)
 	if r.locked {
@@ -944,7 +1012,7 @@ func (r *run) opNewAccount(op core.Op) {
 // the model describes, so the run ends here whether or not the signature is a
 // known finding.
 func (r *run) accountNumberWrong(api string, sc *scopeM, num, want uint32) {
-	if r.prop == "C03" || r.prop == "C08" {
+	if r.modelProp() {
 		if sc.Custom && num == 0 {
 			r.fail("new-account-overwrites-account-0:scope=custom",
 				"%s on scope m/%d'/%d' (created with NewScopedKeyManager) returned account number 0: the existing account 0 row was replaced (name and next indices reset on disk)",
@@ -973,8 +1041,11 @@ func (r *run) opNewRaw(op core.Op) {
 		r.c4.addAccountSecrets(sc, num)
 	}
 	res := r.tx(mode, k, func(ns walletdb.ReadWriteBucket) error {
-		return sm.NewRawAccount(ns, num)
+		return r.scoped(si).NewRawAccount(ns, num)
 	})
+	if res.aborted || (r.stop && r.c10 != nil) {
+		return
+	}
 	r.env.Eff()
 	r.env.Logf("%d newraw s%d num=%d state=%s mode=%d -> %s %s", r.opIdx, si, num, r.stateName(), mode, errName(res.err), res.kind)
 	if r.locked {
@@ -1018,12 +1089,15 @@ func (r *run) opRename(op core.Op) {
 		}
 	}
 	res := r.tx(mode, k, func(ns walletdb.ReadWriteBucket) error {
-		return sm.RenameAccount(ns, a.Num, name)
+		return r.scoped(si).RenameAccount(ns, a.Num, name)
 	})
+	if res.aborted || (r.stop && r.c10 != nil) {
+		return
+	}
 	r.env.Eff()
 	r.env.Logf("%d rename s%d a%d dup=%v mode=%d -> %s %s", r.opIdx, si, a.Num, dup, mode, errName(res.err), res.kind)
 	if dup {
-		if !isCode(res.opErr, waddrmgr.ErrDuplicateAccount) && (r.prop == "C08" || r.prop == "C03") {
+		if !isCode(res.opErr, waddrmgr.ErrDuplicateAccount) && r.modelProp() {
 			r.fail("rename-duplicate-accepted:"+errName(res.opErr), "RenameAccount to an existing name returned %v", res.opErr)
 		}
 		if r.c8 != nil && !r.stop {
@@ -1108,9 +1182,12 @@ func (r *run) opNewWatch(op core.Op) {
 	var num uint32
 	res := r.tx(mode, k, func(ns walletdb.ReadWriteBucket) error {
 		var err error
-		num, err = sm.NewAccountWatchingOnly(ns, name, xpub, mfp, ovr)
+		num, err = r.scoped(si).NewAccountWatchingOnly(ns, name, xpub, mfp, ovr)
 		return err
 	})
+	if res.aborted || (r.stop && r.c10 != nil) {
+		return
+	}
 	r.env.Eff()
 	r.env.Logf("%d newwatch s%d other=%s ovr=%v mfp=%v mode=%d -> %s %s", r.opIdx, si, id, ovr != nil, mfp != 0, mode, errName(res.err), res.kind)
 	if res.opErr != nil && res.kind == "op-error" {
@@ -1169,9 +1246,12 @@ func (r *run) opImportPriv(op core.Op) {
 	var ma waddrmgr.ManagedPubKeyAddress
 	res := r.tx(mode, k, func(ns walletdb.ReadWriteBucket) error {
 		var err error
-		ma, err = sm.ImportPrivateKey(ns, wif, bs)
+		ma, err = r.scoped(si).ImportPrivateKey(ns, wif, bs)
 		return err
 	})
+	if res.aborted || (r.stop && r.c10 != nil) {
+		return
+	}
 	r.env.Eff()
 	r.env.Logf("%d importpriv s%d k%d compressed=%v state=%s mode=%d -> %s %s", r.opIdx, si, idx, compressed, r.stateName(), mode, errName(res.err), res.kind)
 	if r.locked {
@@ -1187,7 +1267,7 @@ func (r *run) opImportPriv(op core.Op) {
 		r.fail("op-failed:importpriv:"+errName(res.opErr), "ImportPrivateKey failed while unlocked: %v", res.opErr)
 		return
 	}
-	if res.opErr == nil {
+	if res.opErr == nil || res.ranOK {
 		// whatever happens to the transaction, the in-memory view of this
 		// manager instance now knows the key (see DESIGN §10 item 5); do not
 		// offer it again in this run.
@@ -1198,7 +1278,7 @@ func (r *run) opImportPriv(op core.Op) {
 		r.m.Imps = append(r.m.Imps, rec)
 		r.objs[rec.Addr] = ma
 		r.env.Count("probe.import-key")
-		if ma.Address().String() != rec.Addr && r.prop == "C03" {
+		if ma.Address().String() != rec.Addr && (r.prop == "C03" || r.prop == "C10") {
 			r.fail("imported-address-wrong:kind=priv", "ImportPrivateKey returned address %s, the key's %v address is %s", ma.Address(), t, rec.Addr)
 			return
 		}
@@ -1236,16 +1316,19 @@ func (r *run) opImportPub(op core.Op) {
 	var ma waddrmgr.ManagedAddress
 	res := r.tx(mode, k, func(ns walletdb.ReadWriteBucket) error {
 		var err error
-		ma, err = sm.ImportPublicKey(ns, pub, bs)
+		ma, err = r.scoped(si).ImportPublicKey(ns, pub, bs)
 		return err
 	})
+	if res.aborted || (r.stop && r.c10 != nil) {
+		return
+	}
 	r.env.Eff()
 	r.env.Logf("%d importpub s%d k%d mode=%d -> %s %s", r.opIdx, si, idx, mode, errName(res.err), res.kind)
 	if res.opErr != nil && res.kind == "op-error" {
 		r.fail("op-failed:importpub:"+errName(res.opErr), "ImportPublicKey failed: %v", res.opErr)
 		return
 	}
-	if res.opErr == nil {
+	if res.opErr == nil || res.ranOK {
 		r.m.UsedKeys[id] = true
 	}
 	if res.committed {
@@ -1317,23 +1400,30 @@ func (r *run) opImportScript(op core.Op) {
 		r.c4.addScript(rec.Kind, script, rec.Secret, want)
 	}
 	bs := r.curStamp()
+	if r.c10 != nil {
+		r.c10.kind = "importscript" // one code path (importScriptAddress) for all script kinds
+		r.env.Count("enum.variant.import" + rec.Kind)
+	}
 	var ma waddrmgr.ManagedScriptAddress
 	res := r.tx(mode, k, func(ns walletdb.ReadWriteBucket) error {
 		var err error
 		switch kind {
 		case 0:
-			ma, err = sm.ImportScript(ns, script, bs)
+			ma, err = r.scoped(si).ImportScript(ns, script, bs)
 		case 1, 2:
-			ma, err = sm.ImportWitnessScript(ns, script, bs, 0, rec.Secret)
+			ma, err = r.scoped(si).ImportWitnessScript(ns, script, bs, 0, rec.Secret)
 		case 3:
 			var t waddrmgr.ManagedTaprootScriptAddress
-			t, err = sm.ImportTaprootScript(ns, tap, bs, 1, true)
+			t, err = r.scoped(si).ImportTaprootScript(ns, tap, bs, 1, true)
 			if err == nil {
 				ma = t
 			}
 		}
 		return err
 	})
+	if res.aborted || (r.stop && r.c10 != nil) {
+		return
+	}
 	r.env.Eff()
 	r.env.Logf("%d importscript s%d kind=%s idx=%d state=%s mode=%d -> %s %s", r.opIdx, si, rec.Kind, idx, r.stateName(), mode, errName(res.err), res.kind)
 	if r.locked && rec.Secret {
@@ -1349,14 +1439,14 @@ func (r *run) opImportScript(op core.Op) {
 		r.fail("op-failed:importscript:"+errName(res.opErr), "import of a %s failed in state %s: %v", rec.Kind, r.stateName(), res.opErr)
 		return
 	}
-	if res.opErr == nil {
+	if res.opErr == nil || res.ranOK {
 		r.m.UsedKeys[id] = true
 	}
 	if res.committed {
 		r.m.Imps = append(r.m.Imps, rec)
 		r.objs[rec.Addr] = ma
 		r.env.Count("probe.import-script")
-		if ma.Address().String() != rec.Addr && r.prop == "C03" {
+		if ma.Address().String() != rec.Addr && (r.prop == "C03" || r.prop == "C10") {
 			r.fail("imported-address-wrong:kind="+rec.Kind, "imported %s got address %s, expected %s", rec.Kind, ma.Address(), rec.Addr)
 			return
 		}
@@ -1408,6 +1498,9 @@ func (r *run) opSetSynced(op core.Op) {
 	res := r.tx(mode, k, func(ns walletdb.ReadWriteBucket) error {
 		return r.mgr.SetSyncedTo(ns, bs)
 	})
+	if res.aborted || (r.stop && r.c10 != nil) {
+		return
+	}
 	r.env.Eff()
 	r.env.Logf("%d setsynced h=%d nil=%v mode=%d -> %s %s", r.opIdx, nh, bs == nil, mode, errName(res.err), res.kind)
 	if res.opErr != nil && res.kind == "op-error" {
@@ -1423,12 +1516,69 @@ func (r *run) opSetSynced(op core.Op) {
 	r.after(res)
 }
 
+// opBirthday sets the wallet birthday (SetBirthday) or the birthday block
+// (SetBirthdayBlock).
+func (r *run) opBirthday(op core.Op) {
+	which := mod(op.Arg(0), 2)
+	mode, k := op.Arg(2), op.Arg(3)
+	s := &r.m.Sync
+	var res txResult
+	if which == 0 {
+		ts := int64(1_500_000_000 + mod(op.Arg(1), 1000)*86400)
+		if r.c10 != nil {
+			r.c10.kind = "setbirthday"
+		}
+		res = r.tx(mode, k, func(ns walletdb.ReadWriteBucket) error {
+			return r.mgr.SetBirthday(ns, time.Unix(ts, 0))
+		})
+		r.env.Eff()
+		r.env.Logf("%d setbirthday mode=%d -> %s %s", r.opIdx, mode, errName(res.err), res.kind)
+		if res.aborted || r.stop {
+			return
+		}
+		if res.opErr != nil && res.kind == "op-error" {
+			r.fail("op-failed:setbirthday:"+errName(res.opErr), "SetBirthday failed: %v", res.opErr)
+			return
+		}
+		if res.committed {
+			s.Birthday = ts
+		}
+		r.after(res)
+		return
+	}
+	if r.c10 != nil {
+		r.c10.kind = "setbirthdayblock"
+	}
+	bs := r.curStamp()
+	verified := op.Arg(1)&1 == 1
+	res = r.tx(mode, k, func(ns walletdb.ReadWriteBucket) error {
+		return r.mgr.SetBirthdayBlock(ns, *bs, verified)
+	})
+	r.env.Eff()
+	r.env.Logf("%d setbirthdayblock h=%d mode=%d -> %s %s", r.opIdx, bs.Height, mode, errName(res.err), res.kind)
+	if res.aborted || r.stop {
+		return
+	}
+	if res.opErr != nil && res.kind == "op-error" {
+		r.fail("op-failed:setbirthdayblock:"+errName(res.opErr), "SetBirthdayBlock failed: %v", res.opErr)
+		return
+	}
+	if res.committed {
+		s.BBSet, s.BBHeight, s.BBHash, s.BBTS, s.BBVerified = true, bs.Height, append([]byte(nil), bs.Hash[:]...), bs.Timestamp.Unix(), verified
+	}
+	r.after(res)
+}
+
 func (r *run) opSyncQuery(op core.Op) {
 	r.env.Eff()
-	if r.prop != "C08" {
+	if r.prop != "C08" && r.prop != "C10" {
 		return
 	}
 	s := &r.m.Sync
+	if b := r.mgr.Birthday().Unix(); b != s.Birthday {
+		r.fail("birthday-differs-from-committed", "Birthday() = %d, committed state is %d", b, s.Birthday)
+		return
+	}
 	got := r.mgr.SyncedTo()
 	r.env.Logf("%d syncquery h=%d", r.opIdx, got.Height)
 	// (the timestamp is compared by the restart observer only: what a nil
@@ -1517,6 +1667,9 @@ func (r *run) opNewScope(op core.Op) {
 		_, err := r.mgr.NewScopedKeyManager(ns, ks, sch)
 		return err
 	})
+	if res.aborted || (r.stop && r.c10 != nil) {
+		return
+	}
 	r.env.Eff()
 	r.env.Logf("%d newscope %d'/%d' state=%s mode=%d -> %s %s", r.opIdx, ks.Purpose, ks.Coin, r.stateName(), mode, errName(res.err), res.kind)
 	if r.locked {
